@@ -2,7 +2,7 @@ from dataclasses import dataclass, field
 
 from kirin import interp, ir
 from kirin.analysis import ForwardExtra, ForwardFrame, const
-from kirin.dialects import func, scf
+from kirin.dialects import func, ilist, scf
 from kirin.lattice import EmptyLattice
 
 
@@ -136,3 +136,40 @@ class Func(interp.MethodTable):
         self, _interp: RuntimeAnalysis, frame: RuntimeFrame, stmt: func.Return
     ):
         return interp.ReturnValue(frame.get_values(stmt.results))
+
+
+@ilist.dialect.register(key="runtime")
+class IList(interp.MethodTable):
+
+    @interp.impl(ilist.Map)
+    @interp.impl(ilist.ForEach)
+    @interp.impl(ilist.Foldl)
+    @interp.impl(ilist.Foldr)
+    @interp.impl(ilist.Scan)
+    def higher_order(
+        self,
+        _interp: RuntimeAnalysis,
+        frame: RuntimeFrame,
+        stmt: ilist.Map | ilist.ForEach | ilist.Foldl | ilist.Foldr | ilist.Scan,
+    ):
+        # the function operand is applied to the elements of the list, so the
+        # statement is quantum whenever that function is
+        fn = stmt.fn.hints.get("const")
+        num_args = 1 if isinstance(stmt, (ilist.Map, ilist.ForEach)) else 2
+        if isinstance(fn, const.Value) and isinstance(fn.data, ir.Method):
+            args = (_interp.lattice.top(),) * num_args
+            callee_frame, _ = _interp.run_method(fn.data, args)
+        elif (
+            isinstance(fn, const.PartialLambda)
+            and (trait := fn.code.get_trait(ir.CallableStmtInterface)) is not None
+        ):
+            # the first block argument of a lambda body is the lambda itself
+            args = (_interp.lattice.top(),) * (num_args + 1)
+            body = trait.get_callable_region(fn.code)
+            with _interp.new_frame(stmt) as callee_frame:
+                _interp.run_ssacfg_region(callee_frame, body, args)
+        else:
+            raise InterruptedError("Dynamic method calls are not supported")
+
+        frame.is_quantum = frame.is_quantum or callee_frame.is_quantum
+        return tuple(_interp.lattice.top() for _ in stmt.results)
